@@ -164,7 +164,7 @@ def build(reg, src):
         "never after cancel(); loop.time() is monotone; callbacks run to completion one at a time (no overlap) - DESIGN section 3",
         "no time passes between evaluating call_later's delay argument and call_later reading the clock",
         "the callback can reach this timer only through KGTimerHandler.cancel (its contract is applied) and cannot schedule `run` itself",
-        "a callback that raises leaves the timer unscheduled; the property does not specify .timerc afterwards, so run() has no exceptional postcondition",
+        "a callback that raises ends the timer (exceptional postcondition of run: stopped, nothing scheduled, delegate cleared)",
         "per-tick re-resolution of a named Klong callback is KGFnWrapper.__call__ (under contract in C09); here: a Klong function is wrapped in KGFnWrapper",
     ]
     reg.externals.update({'loop.time': loop_time, 'loop.call_soon': loop_call_soon, 'loop.call_later': loop_call_later,
@@ -259,7 +259,10 @@ def build(reg, src):
            requires=[lambda s: s.interval >= 0],
            post_hints=[lambda s, r: Implies(s.interval > 0, And(s._cur['__k'] * s.interval <= s.g('now') - s.start,
                                                               s.g('now') - s.start < (s._cur['__k'] + 1) * s.interval))],
-           ensures=[run_post])
+           ensures=[run_post],
+           # a tick whose callback raises ends the timer: nothing stays scheduled AND the timer knows it (a later .timerc must
+           # return 0 - "1 exactly when it stopped a live timer")
+           ensures_exc=[lambda s, e: And(RI_rest(s.st, s.handle), s.st.field(s.handle, '__stopped'), s.g('scheduled') == 0)])
 
     # ---- _call_periodic
     def cp_setup(eng, st):
